@@ -1918,6 +1918,10 @@ void World::check_invariants()
         int64_t d = (int64_t)p->tv_sec * 1000000 + p->tv_usec;
         if (p->tv_sec < 0 || p->tv_usec < 0 || d < 0) violate("C07:hint:negative", fmt("hint %lld us", (long long)d));
         if (d > dl_min) violate("C07:hint:later-than-earliest-deadline", fmt("hint %lld us but the earliest pending deadline is in %lld us", (long long)d, (long long)dl_min));
+        // independent of the library's own bookkeeping: no attempt may wait longer than the configured maximum, so
+        // while a query is outstanding its deadline - and with it the hint - is never further away than that
+        if (cfg->maxtimeout_ms > 0 && d > (int64_t)cfg->maxtimeout_ms * 1000)
+          violate("C07:hint:later-than-configured-maximum", fmt("hint %lld us while a query is outstanding, but no attempt may wait longer than the configured maximum of %d ms", (long long)d, cfg->maxtimeout_ms));
         W("hint_checked");
       }
       static const int64_t maxes[] = { 0, 1000, 10000000 };
